@@ -298,8 +298,12 @@ class Sim:
         self.multi = True
         for a in todo:
             a.state = "runnable"
+            a.ready = threading.Event()
             a.thread = threading.Thread(target=self._actor_main, args=(a,), daemon=True)
             a.thread.start()
+            # one thread at a time, also during start-up: allocation order (and with it
+            # every address-dependent order in extension code) must not depend on timing
+            a.ready.wait(30)
         first = self._choose(None)
         if first is not None:
             first.sem.release()
@@ -314,6 +318,7 @@ class Sim:
     def _actor_main(self, a):
         CTX.sim = self
         CTX.actor = a
+        a.ready.set()
         a.sem.acquire()
         try:
             if not a.dead:
